@@ -144,7 +144,7 @@ CanettiGennaroJareckiKrawczykRabinRVSS::CanettiGennaroJareckiKrawczykRabinRVSS
 		throw std::invalid_argument("CanettiGennaroJareckiKrawczykRabinRVSS: |QUAL| > n");
 	for (size_t j = 0; (j < qual_size) && (j < n); j++)
 	{
-		size_t who;
+		size_t who = n; // a blank line leaves the value untouched
 		std::getline(in, value);
 		std::stringstream(value) >> who;
 		if (who >= n)
@@ -1078,7 +1078,7 @@ CanettiGennaroJareckiKrawczykRabinZVSS::CanettiGennaroJareckiKrawczykRabinZVSS
 		throw std::invalid_argument("CanettiGennaroJareckiKrawczykRabinZVSS: |QUAL| > n");
 	for (size_t j = 0; (j < qual_size) && (j < n); j++)
 	{
-		size_t who;
+		size_t who = n; // a blank line leaves the value untouched
 		std::getline(in, value);
 		std::stringstream(value) >> who;
 		if (who >= n)
@@ -1838,7 +1838,7 @@ CanettiGennaroJareckiKrawczykRabinDKG::CanettiGennaroJareckiKrawczykRabinDKG
 		throw std::invalid_argument("CanettiGennaroJareckiKrawczykRabinDKG: |QUAL| > n");
 	for (size_t j = 0; (j < qual_size) && (j < n); j++)
 	{
-		size_t who;
+		size_t who = n; // a blank line leaves the value untouched
 		std::getline(in, value);
 		std::stringstream(value) >> who;
 		if (who >= n)
@@ -2690,7 +2690,7 @@ CanettiGennaroJareckiKrawczykRabinDSS::CanettiGennaroJareckiKrawczykRabinDSS
 		throw std::invalid_argument("CanettiGennaroJareckiKrawczykRabinDSS: |QUAL| > n");
 	for (size_t j = 0; (j < qual_size) && (j < n); j++)
 	{
-		size_t who;
+		size_t who = n; // a blank line leaves the value untouched
 		std::getline(in, value);
 		std::stringstream(value) >> who;
 		if (who >= n)
